@@ -607,6 +607,111 @@ def fold_shipped(ck: Checker, R: str):
     ck.assume('the shipped database files are sampled (a spread of entries), not decoded completely; the sampled entries are decoded by the repository\'s decoder instantiated in the analyser')
 
 
+def fold_model_lookup(ck: Checker, R: str):
+    """Lookups of tables with don't-cares on an in-memory database (C17, third clause): circuits of different sizes are stored
+    for the normal-form two-input tables (some padded with redundant gates), then every single-output model over
+    {0, 1, *} and a sample of two-output models is looked up: the answer agrees with every defined entry and is not larger
+    than the stored circuit of any completion; None exactly when no completion is stored."""
+    import random as _random
+    repo = ck.repo
+    M = real_model(repo)
+    it = M.interp
+    it.real_super = True
+    dbm = repo.mod('cirbo.circuits_db.db')
+    from .interp import RepoClass
+    from .compose_fold import state_values
+    DONT_CARE = it.global_value(repo.mod('cirbo.core.logic'), 'DontCare')     # the repository's own don't-care value
+
+    def is_dc(v):
+        return v is DONT_CARE
+    DB = RepoClass(dbm, dbm.cls('CircuitsDatabase'))
+    rows2 = [r for r in itertools.product((False, True), repeat=4)]
+    normal_rows = [r for r in rows2 if not r[0]]
+    rnd = _random.Random(1717)
+    probs = []
+    it.steps = 0
+    db = it.instantiate(DB)
+    it.getattr(dbm, None, db, 'open')()
+    size_of = {}
+
+    def nontrivial(c):
+        # (the documented measure of Circuit.gates_number: inputs, negations, buffers and constants are free)
+        return sum(1 for g in c._d['_gates'].values() if g.gate_type.var not in ('INPUT', 'NOT', 'LNOT', 'RNOT', 'IFF', 'LIFF', 'RIFF', 'ALWAYS_TRUE', 'ALWAYS_FALSE'))
+    for k in (1, 2):
+        for combo in itertools.combinations(normal_rows, k):
+            if rnd.random() < 0.25:
+                continue      # not stored
+            spec = [('a', 'INPUT', ()), ('b', 'INPUT', ())]
+            outs = []
+            for j, row in enumerate(combo):
+                code = ''.join('1' if v else '0' for v in row)
+                t = semantics.CODE_TO_NAME[code]
+                t, ops = {'LIFF': ('IFF', ('a',)), 'RIFF': ('IFF', ('b',)), 'LNOT': ('NOT', ('a',)), 'RNOT': ('NOT', ('b',))}.get(t, (t, ('a', 'b')))
+                spec.append((f't{j}', t, ops))
+                last = f't{j}'
+                for p_ in range(rnd.choice((0, 0, 1, 2))):     # redundant gates: the same function, a larger circuit
+                    spec.append((f't{j}p{p_}', 'AND', (last, last)))
+                    last = f't{j}p{p_}'
+                outs.append(last)
+            c = M.build_circuit(spec, outs)
+            it.steps = 0
+            M.den.interp.steps = 0
+            try:
+                it.getattr(dbm, None, db, 'add_circuit')(c)
+                size_of[combo] = nontrivial(c)
+            except InterpRaise as e:
+                probs.append(f'adding a circuit for the normal-form table {combo} raises {e.exc_name}')
+    lookup = it.getattr(dbm, None, db, 'get_by_raw_truth_table_model')
+    vals = (False, True, DONT_CARE)
+    models = [[list(r)] for r in itertools.product(vals, repeat=4)]
+    two = [[list(a), list(b)] for a in itertools.product(vals, repeat=4) for b in itertools.product(vals, repeat=4)]
+    models += rnd.sample(two, 60 if ck.tier == 'quick' else 600)
+    models += [[[True, True, False, DONT_CARE], [DONT_CARE] * 4], [[DONT_CARE] * 4, [False, True, True, False]], [[DONT_CARE, False, False, False], [DONT_CARE, True, True, True]]]
+    n = 0
+    for model in models:
+        n += 1
+        dc = [(i, j) for i, r in enumerate(model) for j, v in enumerate(r) if is_dc(v)]
+        if len(dc) > 6:
+            continue
+        best = None
+        for sub in itertools.product((False, True), repeat=len(dc)):
+            t = [list(r) for r in model]
+            for (i, j), v in zip(dc, sub):
+                t[i][j] = v
+            nf = tuple(sorted({tuple((not v) for v in r) if r[0] else tuple(r) for r in t}))
+            if nf in size_of and (best is None or size_of[nf] < best):
+                best = size_of[nf]
+        text = '/'.join(''.join('*' if is_dc(v) else str(int(v)) for v in r) for r in model)
+        it.steps = 0
+        M.den.interp.steps = 0
+        try:
+            got = lookup([list(r) for r in model])
+        except InterpRaise as e:
+            probs.append(f'lookup of the model {text} raises {e.exc_name}')
+            continue
+        if best is None:
+            if got is not None:
+                probs.append(f'lookup of the model {text} returns a circuit although no completion is stored')
+            continue
+        if got is None:
+            probs.append(f'lookup of the model {text} returns nothing although a completion is stored')
+            continue
+        g = got._d
+        if len(g['_outputs']) != len(model) or len(g['_inputs']) != 2 or cm.invariant_problems(got):
+            probs.append(f'lookup of the model {text}: answer has {len(g["_inputs"])} inputs, {len(g["_outputs"])} outputs / is not well formed')
+            continue
+        table = [[state_values(got, dict(zip(g['_inputs'], bits)))[o] for bits in itertools.product((False, True), repeat=2)] for o in g['_outputs']]
+        wrong = [(i, j) for i, r in enumerate(model) for j, v in enumerate(r) if not is_dc(v) and table[i][j] != v]
+        if wrong:
+            probs.append(f'lookup of the model {text} returns a circuit computing {"/".join("".join(str(int(v)) for v in r) for r in table)}: entry {wrong[0]} is defined otherwise')
+        elif nontrivial(got) > best:
+            probs.append(f'lookup of the model {text} returns a circuit with {nontrivial(got)} gates although a completion is stored with {best}')
+        if len(probs) > 3:
+            break
+    ck.check(not probs, R, dbm, dbm.func('CircuitsDatabase.get_by_raw_truth_table_model'), f'lookups with don\'t-cares folded on an in-memory database ({len(size_of)} stored normal forms of different sizes, {n} models): the answer agrees with every defined entry, '
+             'is not larger than the stored circuit of any completion, and is None exactly when no completion is stored', '; '.join(probs[:2]), construct='get_by_raw_truth_table_model over an in-memory database')
+
+
 from .interp import Host as _Host
 
 
